@@ -10,7 +10,7 @@ EXPLANATION = ("CrossHair (z3) over the real Timezone / pytz provider: 1-3 singl
                "observance with the latest onset not after the instant (reference computed in the harness).")
 ASSUMPTIONS = [
     "NOT CLAIMED: RRULE expansion (dateutil.rrule) and the zoneinfo provider's interpretation through dateutil.tz.tzical - third-party iterators with horizon-dependent loops - hence also not 'the two conversions agree'",
-    "single-onset observances on one day; local onset hour 0..1 (thorough 0..2), TZOFFSETFROM -1..1 h (thorough -2..2), TZOFFSETTO = FROM + {0,1} (thorough -1..1); 1-2 observances (thorough 3); with and without TZNAME",
+    "single-onset observances on one day; local onset hour 0..1 (thorough 0..2), TZOFFSETFROM -1..1 h (thorough -2..2), TZOFFSETTO = FROM + {0,1} (thorough -1..1); 1-2 observances with and without TZNAME (thorough: also 3 named observances with hours 0..1, TZOFFSETFROM -1..1, the first at hour 0, only the third changing the offset)",
     "instants: every onset -1 s, 0, +1 s (from the first onset on); configurations in which two observances have the same UTC onset are skipped for the instant check (the statement's 'latest onset' is then not unique)",
     "a VTIMEZONE without any STANDARD observance is outside the statement (DST delta undefined) and skipped",
     "the cache/ordering clause (definition from the same calendar wherever it stands, whatever was parsed before) is exercised by the cache condition on both providers with concrete calendars; the known design limits are listed as known findings",
@@ -21,5 +21,5 @@ CONDITIONS = [X("transitions", "c12.py", "h_transitions", timeout=400, thorough_
                 params={"n": n, "k1": k1, "h1": h1, "f1": f1, "named": named},
                 tiers=("quick", "thorough") if n <= 2 else ("thorough",))
               for n in (1, 2, 3) for k1 in (0, 1) for h1 in (0, 1) for f1 in (-1, 0, 1) for named in (True, False)
-              if not (n == 1 and (not named or h1 == 1))] + [
+              if not (n == 1 and (not named or h1 == 1)) and not (n == 3 and (not named or h1 == 1))] + [
 ] + shards("cache", "c12.py", "h_cache", {"pytz_provider": [False, True], "third": [False, True]}, timeout=300, what="sequences of 2-3 parsed calendars with custom TZIDs: each DTSTART gets the offset of its own calendar's VTIMEZONE", bound="2 custom ids (one with a leading slash) x offsets +1..+3 h x both providers; minus known findings C12-K1/K2")
